@@ -117,8 +117,13 @@ static void pt_put(int rc, ec_point_p pt) {
 	bn_put_hex(&pt->x); putchar(','); bn_put_hex(&pt->y);
 }
 
+/* Non-termination watchdog, re-armed before EVERY library call (dirty_stack() precedes each of them) and at the start of every
+ * line: wd_cpu_s seconds of CPU time (EC_DRV_WD_CPU; robust on a loaded machine), 6 times that of wall clock.  The slowest
+ * row measured (dozens of calls) costs 0.16 s of CPU time.  Expiry = "FAULT sig=14". */
+static unsigned wd_cpu_s = 60;
 static void __attribute__((noinline)) dirty_stack(void) {
 	unsigned char junk[32768];
+	vh_watchdog(wd_cpu_s, 6 * wd_cpu_s);
 	memset(junk, 0xA5, sizeof(junk));
 	__asm__ volatile("" : : "r"(junk) : "memory");       /* keep the store */
 }
@@ -152,6 +157,7 @@ static char *tok[MAXTOK];
 int main(void) {
 	char *line = NULL; size_t lcap = 0; ssize_t ll;
 	vh_install_fault_handler();
+	if (getenv("EC_DRV_WD_CPU") && atoi(getenv("EC_DRV_WD_CPU")) > 0) wd_cpu_s = (unsigned)atoi(getenv("EC_DRV_WD_CPU"));
 	while ((ll = getline(&line, &lcap, stdin)) > 0) {
 		size_t nt = 0, i;
 		char tag[200];
@@ -161,7 +167,7 @@ int main(void) {
 		for (char *p = strtok(line, " \n"); p && nt < MAXTOK; p = strtok(NULL, " \n")) tok[nt++] = p;
 		if (nt == 0) continue;
 		const char *op = tok[0];
-		alarm(120);
+		vh_watchdog(wd_cpu_s, 6 * wd_cpu_s);
 		if (!strcmp(op, "cfg")) {
 			int proj = 0, mix = 0, rdbl = 0, mulldiv = 0;
 #ifdef EC_USE_PROJECTIVE
